@@ -4,10 +4,10 @@
 # usage: tools/seed_check_copy.sh <seed dir with patch.diff> <Cxx> [<Cyy> ...]
 set -u
 D=$1; shift
-R=/tmp/seedrun
+R=${SEED_RUN:-/tmp/seedrun}
 mkdir -p $R
-rsync -a --delete --exclude '.git' --exclude 'replays' /verif/ $R/verif/
-rm -rf $R/repo; mkdir -p $R/repo; cp -r /repo/src $R/repo/src
+rsync -a --delete --exclude '.git' --exclude 'replays' ${SEED_BASE:-/verif}/ $R/verif/
+rm -rf $R/repo; mkdir -p $R/repo; git -C /repo archive HEAD src | tar -x -C $R/repo    # committed state, not the working tree
 ( cd $R/repo && patch -s -p1 < "$D/patch.diff" ) || { echo "patch does not apply"; exit 3; }
 for P in "$@"; do
   ( cd $R/verif && VERIF_REPO=$R/repo timeout 1800 /venv/bin/python harness/check.py "$P" --tier quick 2>&1 | grep -E "VIOLATION|KNOWN-FINDING|-> exit|infrastructure" | sed "s|^|[$P] |" )
